@@ -167,6 +167,9 @@ func alsoSet(xs []string) map[string]bool {
 }
 
 func (g *G) genStep(cfg *MachineCfg, kind string) *world.Step {
+	if b := g.bias("group", 0); b > 0 && g.W.Group.Policy == "" && g.chance("group-setup", b) {
+		return &world.Step{Kind: "tx", Tx: g.genGroupSetup()}
+	}
 	if cfg.Step != nil {
 		if s := cfg.Step(g, kind); s != nil {
 			return s
